@@ -435,6 +435,14 @@ func (wl *Wallet) build(stepIdx int, st *Step) *BuiltOp {
 		rb.applyFault(st.Fault, st.FaultArg, op)
 		op.Bytes = rb.bytes()
 	}
+	if st.Respace && st.Fault == ref.FNone && st.Via == "direct" {
+		// the same request with insignificant whitespace and another member order: everything that is hashed is hashed in canonical
+		// form, so this is the same operation (only the intake's request size limit counts bytes, hence direct submissions only)
+		if pv, perr := ref.Parse(op.Bytes); perr == nil {
+			op.Bytes = reencode(core.NewRNG(w.Plan.Seed).Stream(fmt.Sprintf("respace/%d", stepIdx)), pv)
+			w.T.Probe("request_with_insignificant_whitespace")
+		}
+	}
 	if st.AnchoredKind != "" && st.Fault == ref.FTypeConfusion {
 		tr.AnchoredKind = ref.OpKind(st.AnchoredKind)
 	}
